@@ -4,6 +4,7 @@ package keyper
 
 import (
 	"context"
+	"time"
 
 	"github.com/jackc/pgx/v4"
 	"github.com/jackc/pgx/v4/pgxpool"
@@ -37,6 +38,13 @@ func VerifNewEonPubKeyHandler(
 // VerifQueryAndHandle is one iteration of the polling loop.
 func (v *VerifEonPubKeyHandler) VerifQueryAndHandle(ctx context.Context) error {
 	return v.h.queryAndHandleNewEonPubKeys(ctx)
+}
+
+// VerifLoop runs the real polling loop until ctx is cancelled; tick replaces the polling interval
+// (a package variable) for the duration of the process.
+func (v *VerifEonPubKeyHandler) VerifLoop(ctx context.Context, tick time.Duration) error {
+	eonPubkeyTickerTime = tick
+	return v.h.loop(ctx)
 }
 
 // VerifNewCore builds a KeyperCore around an existing pool without starting any service.
